@@ -44,6 +44,6 @@ SpecT(sw, x) ==
     \* the arithmetic of surrogate pairs, all 1024 x 1024 combinations: x = (h - D800) * 1024 + (l - DC00)
     [] sw[1] = "combine"   -> <<"ok", 1, Combine(55296 + (x \div 1024), 56320 + (x % 1024)), -1>>
     \* compact printing of a one-character string / key
-    [] sw[1] = "print_str" -> <<"text">> \o Pad(Print(VStr(<<x>>), Compact), 9)
-    [] sw[1] = "print_key" -> <<"text">> \o Pad(Print(VObj(<<Entry(<<x>>, VNull)>>), Compact), 16)
+    [] sw[1] = "print_str" -> <<"text">> \o Pad(Render(VStr(<<x>>), Compact), 9)
+    [] sw[1] = "print_key" -> <<"text">> \o Pad(Render(VObj(<<Entry(<<x>>, VNull)>>), Compact), 16)
 =============================================================================
